@@ -75,6 +75,8 @@ struct upipe_ts_pesd {
     bool acquired;
     /** true if subsequent (non-start) packets have to be dropped */
     bool drop;
+    /** true if a discontinuity was received and not yet passed on */
+    bool discontinuity;
 
     /** public upipe structure */
     struct upipe upipe;
@@ -108,6 +110,7 @@ static struct upipe *upipe_ts_pesd_alloc(struct upipe_mgr *mgr,
     upipe_ts_pesd_init_sync(upipe);
     upipe_ts_pesd_init_output(upipe);
     upipe_ts_pesd->drop = true;
+    upipe_ts_pesd->discontinuity = false;
     upipe_ts_pesd->next_uref = NULL;
     upipe_ts_pesd->next_uref_size = 0;
     upipe_throw_ready(upipe);
@@ -146,6 +149,11 @@ static void upipe_ts_pesd_check_output(struct upipe *upipe,
     if (upipe_ts_pesd->next_uref_size == upipe_ts_pesd->next_pes_size) {
         uref_block_set_end(upipe_ts_pesd->next_uref);
         upipe_ts_pesd->next_uref_size = upipe_ts_pesd->next_pes_size = 0;
+    }
+    if (unlikely(upipe_ts_pesd->discontinuity)) {
+        /* the packet that carried the flag was dropped or merged */
+        uref_flow_set_discontinuity(upipe_ts_pesd->next_uref);
+        upipe_ts_pesd->discontinuity = false;
     }
     upipe_ts_pesd_output(upipe, upipe_ts_pesd->next_uref, upump_p);
     upipe_ts_pesd->next_uref = NULL;
@@ -306,6 +314,9 @@ static void upipe_ts_pesd_input(struct upipe *upipe, struct uref *uref,
         uref_free(uref);
         return;
     }
+
+    if (unlikely(ubase_check(uref_flow_get_discontinuity(uref))))
+        upipe_ts_pesd->discontinuity = true;
 
     if (ubase_check(uref_block_get_start(uref))) {
         if (unlikely(upipe_ts_pesd->next_uref != NULL)) {
